@@ -47,6 +47,9 @@ def extract_params():
     return c, stale, sig
 
 
+HL_ACTIONS = ["R_Gen", "R_Inc", "R_Ptr", "R_Use", "R_Dec", "W_Lock", "W_Ptr", "W_Alloc", "W_Swap",
+              "W_Seen", "W_Flip", "W_Hint", "W_Re", "W_Free", "W_Unlock", "Deliver"]
+
 INV_OF = {
     "C01": ["NoUseAfterFree", "FreeOnce", "NoRace", "CurrentLive"],
     "C03": ["ReaderNeverBlocked"],
@@ -135,8 +138,10 @@ def run_halflock(chk, tier, want_liveness=False):
         for what, cfg, tmo in mc_configs(tier):
             c = dict(cfg)
             c.update(consts)
+            first = what == mc_configs(tier)[0][0]
             r = chk.model_check("HalfLock.tla", c, invariants=INV_OF[pid], what=what, timeout=tmo,
-                                workers=8 if tier == "quick" else 12, deadlock=(pid == "C18"))
+                                workers=8 if tier == "quick" else 12, deadlock=(pid == "C18"),
+                                expect=HL_ACTIONS if first and consts["Barrier"] == "both" else ())
             if r.violation:
                 chk.model_violation(r, "half_lock.rs as extracted (%s)" % what, c,
                                     extra={"signature": sig})
